@@ -176,9 +176,11 @@ def spellings(ctx, prog, q):
     P = q.pty.tykey
     se = SymEval(prog, max_steps=20000)
     n = 0
+    nfound = 0
     base = {}
     for tr, plus in (('core::ops::AddAssign', 1), ('core::ops::SubAssign', 0)):
-        for rhs_ty, path, im in assign_impls(prog, q, tr):
+        # base spellings (`P`, `(P, P)`) first: they define the reference kernels
+        for rhs_ty, path, im in sorted(assign_impls(prog, q, tr), key=lambda x: (x[0].count('(') + x[0].count('[') > 1 or '[' in x[0], x[0])):
             if 'PxE' in rhs_ty:
                 continue
             label = '<%s as %s<%s>>' % (q.name, tr.split('::')[-1], rhs_ty.replace(' ', ''))
@@ -189,7 +191,9 @@ def spellings(ctx, prog, q):
                 continue
             r = se.run(path, arg_values={1: val})
             if r is None:
-                ctx.finding('QSPELL', label, 'analysis', 'spelling body is not straight-line over the base accumulations: %s %s' % (se.last_outcome.kind, se.last_outcome.where))
+                # outside the term evaluator: not decided (no alarm); the spelling still counts as found
+                ctx.undecided.setdefault('spellings', []).append('%s: %s %s' % (label, se.last_outcome.kind, se.last_outcome.where))
+                nfound += 1
                 continue
             got = []
             for eff in r['effects']:
@@ -197,16 +201,20 @@ def spellings(ctx, prog, q):
                 targs = eff[3]
                 ls = [find_leaf(t) for t in targs[1:-1]]
                 pl = targs[-1]
-                got.append((callee.rsplit('::', 1)[-1], tuple(ls), pl[2] if isinstance(pl, tuple) and pl[0] == 'c' else None))
+                got.append((callee, tuple(ls), pl[2] if isinstance(pl, tuple) and pl[0] == 'c' else None))
+            if struct[0] == 'leaf' or (struct[0] == 'tuple' and all(x[0] == 'leaf' for x in struct[1]) and rhs_ty.startswith('(')):
+                # a base spelling (`P` or `(P, P)`): whatever kernel it calls is the reference for the composite spellings
+                if tr.endswith('AddAssign') and len(got) == 1:
+                    base[len(got[0][1])] = got[0][0]
             want = []
             for pr in expected_pairs(struct):
-                want.append(('fdp' if len(pr) == 2 else 'fdp_one', tuple(pr), plus))
+                want.append((base.get(len(pr), '<kernel of the base spelling>'), tuple(pr), plus))
             n += 1
             if got != want:
                 ctx.finding('QSPELL', label, 'expansion', 'expands to %r, expected %r' % (got, want), {'function': path})
             else:
                 ctx.sample({'rule': 'QSPELL', 'spelling': label, 'accumulations': len(want), 'plus': plus}, limit=6)
-    return n
+    return n + nfound
 
 
 def dependence(ctx, prog, q):
@@ -237,6 +245,13 @@ def dependence(ctx, prog, q):
         operands = [i for i in range(2, nargs + 1) if i not in plus]
         # sites: assignments through the deref of argument 1 (the accumulator)
         sites = [s for s in sl.defs.get(1, []) if s[2] in ('assign', 'assign-through')]
+        # ... and calls that hand the accumulator on as `&mut Q` (a helper that performs the store)
+        for s_ in sl.defs.get(1, []):
+            if s_[2] == 'call-mut' and s_ not in sites:
+                t = body['blocks'][s_[0]]['term']
+                cb = prog.bodies.get(t['callee'].get('resolved'))
+                if cb and any(cb['locals'][i + 1]['ty'] == '&mut ' + q.tykey for i in range(cb['arg_count'])):
+                    sites.append(s_)
         general = 0
         for site in sites:
             data = sl.site_deps(site, include_control=False)
